@@ -82,8 +82,14 @@ def handleE (j : Json) : Except String Json := do
     let op ← parseOp (← j.getObjVal? "op")
     let rollAt ← j.getObjValAs? (List Nat) "rollAt"
     let ids := ((pre.configs.latest.ids ++ pre.ldr.repls.map (·.id)).eraseDups).filter (· != pre.nid)
-    let orders := if ids.length ≤ 4 then perms ids else [ids, ids.reverse]
-    let outs := orders.map (fun o => (outcome (pre.step op rollAt o) pre.retain pre.shutdownOnRemove).compress)
+    -- `level` = how many iterations over l.repls get an independent order (the rest repeat the last one)
+    let level := (j.getObjValAs? Nat "level").toOption.getD 1
+    let ps := if ids.length ≤ 4 then perms ids else [ids, ids.reverse]
+    let orderss : List (List (List Nat)) :=
+      if level ≤ 1 then ps.map (fun p => List.replicate 8 p)
+      else if level = 2 then ps.flatMap (fun p => ps.map (fun q => p :: List.replicate 7 q))
+      else ps.flatMap (fun p => ps.flatMap (fun q => ps.map (fun r => p :: q :: List.replicate 6 r)))
+    let outs := orderss.map (fun o => (outcome (pre.step op rollAt o) pre.retain pre.shutdownOnRemove).compress)
     pure (Json.mkObj [("outcomes", Json.arr ((outs.eraseDups.map Json.str).toArray))])
   | "crashRestart" => do
     let pre ← j.getObjValAs? Raft.Node "pre"
